@@ -127,19 +127,24 @@ def err(x):
 # ----------------------------------------------------------------------------- generators
 
 
-def dy(rng, zero_p=0.2):
+BAND = [2.0 ** -14, 2.0 ** -17, 2.0 ** -20, 2.0 ** -23]   # 6e-5 .. 1.2e-7: above EQ_TOLERANCE by more than a decade
+
+
+def dy(rng, zero_p=0.2, band_p=0.0):
     if rng.random() < zero_p:
         return 0.0
+    if band_p and rng.random() < band_p:
+        return rng.choice(BAND) * rng.choice([1, -1, 3])
     return rng.choice([-2, -1.5, -1, -0.75, -0.5, -0.25, 0.25, 0.5, 0.75, 1, 1.5, 2])
 
 
-def sym8(rng, n, zero_p=0.2):
+def sym8(rng, n, zero_p=0.2, band_p=0.0):
     """random real dyadic two_body_integrals[p,q,r,s] = (ps|qr) with the eight-fold symmetry of (ab|cd)"""
     chem = np.zeros((n, n, n, n))
     done = np.zeros((n, n, n, n), dtype=bool)
     for a, b, c, d in itertools.product(range(n), repeat=4):
         if not done[a, b, c, d]:
-            v = dy(rng, zero_p)
+            v = dy(rng, zero_p, band_p)
             for x in [(a, b, c, d), (b, a, c, d), (a, b, d, c), (b, a, d, c), (c, d, a, b), (d, c, a, b), (c, d, b, a),
                       (d, c, b, a)]:
                 chem[x] = v
@@ -150,11 +155,11 @@ def sym8(rng, n, zero_p=0.2):
     return h
 
 
-def sym2(rng, n):
+def sym2(rng, n, band_p=0.0):
     m = np.zeros((n, n))
     for i in range(n):
         for j in range(i, n):
-            m[i, j] = m[j, i] = dy(rng)
+            m[i, j] = m[j, i] = dy(rng, 0.2, band_p)
     return m
 
 
@@ -459,8 +464,11 @@ def stream_integrals(ctx):
     tol = rj(1e-8)
     for t in range(N):
         n = rng.choice([1, 2, 2, 3, 3])
-        one = sym2(rng, n)
-        two = sym8(rng, n)
+        # (B) band entries 1e-7 .. 1e-4 next to O(1) ones: bare and core-dressed one-body integrals, two-body integrals
+        band = rng.choice([0.0, 0.0, 0.3, 0.6])
+        one = sym2(rng, n, band)
+        two = sym8(rng, n, 0.2, band / 2)
+        s.count('band-entries:%s' % bool(band))
         if rng.random() < 0.15:
             one[0, 0] = 2.0 ** -30      # below EQ_TOLERANCE: truncated
         nuc = rng.choice([0.0, 0.25, -1.5])
